@@ -2,6 +2,7 @@
 //!
 //! usage: verif-harness <domain> [key=value ...]
 
+mod codec;
 mod infl;
 mod mem;
 mod memc;
@@ -31,6 +32,7 @@ fn main() {
         "mem" => mem::main(&args),
         "memc" => memc::main(&args),
         "infl" => infl::main(&args),
+        "codec" => codec::main(&args),
         _ => {
             eprintln!("unknown domain {domain:?}");
             2
